@@ -1,9 +1,10 @@
 (* Property C14: file handles behave as byte files; open modes never destroy data they must keep
    ONLY statements: each theorem is closed by `exact` of a lemma proved elsewhere and followed by Print Assumptions. *)
-From Coq Require Import ZArith NArith List Bool Lia Permutation.
+From Coq Require Import ZArith NArith List Bool Lia Permutation FMapPositive.
 Import ListNotations.
-Require Import Files FilesProofs FilesTotal Base Strings Num Builtins Interp LinkNames.
+Require Import Files FilesProofs FilesTotal Base Strings Builtins Interp Machine Spec HeapFacts Refine1 Refine2 RunG IOSpec FileIO Refine3 Refine4 Num LinkNames.
 Open Scope Z_scope.
+Import Files FilesProofs FilesTotal.      (* fstep below is the file model's step, not the machine's frame step *)
 Theorem open_keeps m bs s :
   fopen m (Some bs) = Some s -> resets m = false -> content s = bs.
 Proof. exact (FilesProofs.open_keeps m bs s). Qed.
@@ -130,6 +131,69 @@ Theorem append_total_history_keeps_prefix m disk ops final rs :
   xhistory m (Some disk) ops = Some (final, rs) -> exists added, final = disk ++ added.
 Proof. exact (FilesTotal.append_total_history_keeps_prefix m disk ops final rs). Qed.
 Print Assumptions append_total_history_keeps_prefix.
+
+(* IN THE MAIN MODEL (values, actions, the executor of main.main): executing one command on a handle is exactly one step of the total file model on (the bytes the disk holds under the handle's name, the handle's position / mode / closed flag) *)
+Theorem file_command_is_xstep n ip h w sp i o hd :
+  handle_get (w_handles w) i = Some hd ->
+  exec (S (S n)) ip h w (VIO (IOFile sp i o)) =
+  match xstep (view w hd) o with
+  | (x', XVal v) => Done h (write_back w i hd x') (inl (val_of_result v)) 0
+  | (x', XNil) => Done h (write_back w i hd x') (inl VNil) 0
+  | (_, XErr e) => Done h w (inr (os_error sp e)) 0 end.
+Proof. exact (FileIO.file_command_is_xstep n ip h w sp i o hd). Qed.
+Print Assumptions file_command_is_xstep.
+
+(* a refused command is the language's OS exception with errno 9 or 22; no file, no handle, no input, no output changes *)
+Theorem refused_command_changes_nothing n ip h w sp i o hd x' e :
+  handle_get (w_handles w) i = Some hd -> xstep (view w hd) o = (x', XErr e) ->
+  exec (S (S n)) ip h w (VIO (IOFile sp i o)) = Done h w (inr (os_error sp e)) 0 /\ (e = EBADF \/ e = EINVAL).
+Proof. exact (FileIO.refused_command_changes_nothing n ip h w sp i o hd x' e). Qed.
+Print Assumptions refused_command_changes_nothing.
+
+Theorem unknown_handle n ip h w sp i o :
+  handle_get (w_handles w) i = None ->
+  exec (S (S n)) ip h w (VIO (IOFile sp i o)) = Done h w (inr (os_error sp 9)) 0.
+Proof. exact (FileIO.unknown_handle n ip h w sp i o). Qed.
+Print Assumptions unknown_handle.
+
+(* opening a missing file in a mode that needs it: OS exception, errno 2, nothing changes *)
+Theorem open_missing_file n ip h w sp p m :
+  Files.fopen m (disk_get (w_disk w) p) = None ->
+  exec (S (S n)) ip h w (VIO (IOOpen sp p m)) = Done h w (inr (os_error sp 2)) 0.
+Proof. exact (FileIO.open_missing_file n ip h w sp p m). Qed.
+Print Assumptions open_missing_file.
+
+(* opening applies the open-mode rules of Files.fopen to the bytes on disk and yields a NEW handle *)
+Theorem open_gives_a_new_handle n ip h w sp p m s :
+  Files.fopen m (disk_get (w_disk w) p) = Some s ->
+  exec (S (S n)) ip h w (VIO (IOOpen sp p m)) =
+  Done h {| w_in := w_in w; w_out := w_out w; w_disk := disk_set (w_disk w) p (content s);
+            w_handles := (w_nexth w, {| h_path := p; h_pos := pos s; h_mode := m; h_closed := false |}) :: w_handles w; w_nexth := Pos.succ (w_nexth w) |}
+         (inl (VFun (FFile (w_nexth w)))) 0.
+Proof. exact (FileIO.open_gives_a_new_handle n ip h w sp p m s). Qed.
+Print Assumptions open_gives_a_new_handle.
+
+(* a command on one handle never changes a file of another name *)
+Theorem other_files_untouched w sp i o hd q :
+  handle_get (w_handles w) i = Some hd -> q <> h_path hd ->
+  disk_get (w_disk (fst (wstep w (WFile sp i o)))) q = disk_get (w_disk w) q.
+Proof. exact (FileIO.other_files_untouched w sp i o hd q). Qed.
+Print Assumptions other_files_untouched.
+
+(* a handle opened read-only never changes its own file, whatever is asked of it *)
+Theorem read_only_handle_never_writes w sp i o hd c :
+  handle_get (w_handles w) i = Some hd -> h_mode hd = MR -> disk_get (w_disk w) (h_path hd) = Some c ->
+  disk_get (w_disk (fst (wstep w (WFile sp i o)))) (h_path hd) = Some c.
+Proof. exact (FileIO.read_only_handle_never_writes w sp i o hd c). Qed.
+Print Assumptions read_only_handle_never_writes.
+
+(* the trampolined machine computes the specification semantics also for programs that open, read and write files (any disk at the start) *)
+Theorem machine_implements_spec_fs fuel prog stdin disk h' w' r d :
+  spec_main_fs fuel prog stdin disk = Done h' w' r d ->
+  exists q', reach (1 + d) (m_heap (init_fs prog stdin disk)) (PositiveMap.empty _) (m_stack (init_fs prog stdin disk)) (m_world (init_fs prog stdin disk))
+                   h' q' [Fr None (retc r) []] w'.
+Proof. exact (Refine4.machine_implements_spec_fs fuel prog stdin disk h' w' r d). Qed.
+Print Assumptions machine_implements_spec_fs.
 
 (* the six mode words regenerated from io.py map to rb wb ab r+b w+b a+b *)
 Theorem mode_table_documented  :
